@@ -61,23 +61,34 @@ type statPlan struct {
 	attempt func(br blob.Ref)
 }
 
-type sub struct {
-	id  int
+// subState is what a sub-store holds during one case.  The wrappers are pooled across cases (see
+// pooledSub); a straggler goroutine of an earlier case or op (an upload that finishes after ReceiveBlob
+// returned at quorum, a source of mergedEnumerate still enumerating after the merge was cut at limit)
+// keeps the state it loaded on entry, so it never touches the state of a later case, and every access
+// to a state is synchronised (memory.Storage's own lock, bmu).
+type subState struct {
 	mem *memory.Storage
 	// truncated copies (one byte short) this sub-store holds INSTEAD of the good copy: what a backend
 	// is left with after a write that failed half-way
 	bmu     sync.Mutex
 	bad     map[blob.Ref][]byte
-	down    atomic.Bool
-	rplan   atomic.Pointer[recvPlan]
-	splan   atomic.Pointer[statPlan]
 	fetches *atomic.Int64
+}
+
+type sub struct {
+	id    int
+	st    atomic.Pointer[subState]
+	down  atomic.Bool
+	rplan atomic.Pointer[recvPlan]
+	splan atomic.Pointer[statPlan]
 }
 
 var _ blobserver.Storage = (*sub)(nil)
 
 // get returns the copy this sub-store holds (good or truncated)
-func (s *sub) get(br blob.Ref) (string, bool) {
+func (s *sub) get(br blob.Ref) (string, bool) { return s.st.Load().get(br) }
+
+func (s *subState) get(br blob.Ref) (string, bool) {
 	s.bmu.Lock()
 	b, ok := s.bad[br]
 	s.bmu.Unlock()
@@ -88,14 +99,14 @@ func (s *sub) get(br blob.Ref) (string, bool) {
 }
 
 // storeGood: the copy written last replaces an earlier (truncated) one
-func (s *sub) storeGood(ctx context.Context, br blob.Ref, data []byte) (blob.SizedRef, error) {
+func (s *subState) storeGood(ctx context.Context, br blob.Ref, data []byte) (blob.SizedRef, error) {
 	s.bmu.Lock()
 	delete(s.bad, br)
 	s.bmu.Unlock()
 	return s.mem.ReceiveBlob(ctx, br, bytes.NewReader(data))
 }
 
-func (s *sub) storeBad(ctx context.Context, br blob.Ref, data []byte) blob.SizedRef {
+func (s *subState) storeBad(ctx context.Context, br blob.Ref, data []byte) blob.SizedRef {
 	s.mem.RemoveBlobs(ctx, []blob.Ref{br})
 	s.bmu.Lock()
 	s.bad[br] = append([]byte(nil), data[:len(data)-1]...)
@@ -104,27 +115,29 @@ func (s *sub) storeBad(ctx context.Context, br blob.Ref, data []byte) blob.Sized
 }
 
 func (s *sub) Fetch(ctx context.Context, br blob.Ref) (io.ReadCloser, uint32, error) {
-	s.fetches.Add(1)
+	st := s.st.Load()
+	st.fetches.Add(1)
 	if s.down.Load() {
 		return nil, 0, errDown
 	}
-	s.bmu.Lock()
-	b, ok := s.bad[br]
-	s.bmu.Unlock()
+	st.bmu.Lock()
+	b, ok := st.bad[br]
+	st.bmu.Unlock()
 	if ok {
 		return io.NopCloser(bytes.NewReader(b)), uint32(len(b)), nil
 	}
-	return s.mem.Fetch(ctx, br)
+	return st.mem.Fetch(ctx, br)
 }
 
 func (s *sub) ReceiveBlob(ctx context.Context, br blob.Ref, src io.Reader) (blob.SizedRef, error) {
+	st := s.st.Load()
 	p := s.rplan.Load()
 	if p == nil {
 		data, err := io.ReadAll(src)
 		if err != nil {
 			return blob.SizedRef{}, err
 		}
-		return s.storeGood(ctx, br, data)
+		return st.storeGood(ctx, br, data)
 	}
 	pos, ok := p.posOf[s.id]
 	if !ok {
@@ -143,17 +156,17 @@ func (s *sub) ReceiveBlob(ctx context.Context, br blob.Ref, src io.Reader) (blob
 	}
 	switch p.kind[pos] {
 	case "ok":
-		return s.storeGood(ctx, br, data)
+		return st.storeGood(ctx, br, data)
 	case "ws":
-		sb, err := s.storeGood(ctx, br, data)
+		sb, err := st.storeGood(ctx, br, data)
 		sb.Size++
 		return sb, err
 	case "w0":
 		return blob.SizedRef{Ref: br, Size: uint32(len(data)) + 1}, nil
 	case "tr":
-		return s.storeBad(ctx, br, data), nil
+		return st.storeBad(ctx, br, data), nil
 	case "es":
-		s.storeGood(ctx, br, data)
+		st.storeGood(ctx, br, data)
 		return blob.SizedRef{}, &injErr{pos}
 	default: // "err"
 		return blob.SizedRef{}, &injErr{pos}
@@ -161,6 +174,7 @@ func (s *sub) ReceiveBlob(ctx context.Context, br blob.Ref, src io.Reader) (blob
 }
 
 func (s *sub) StatBlobs(ctx context.Context, blobs []blob.Ref, fn func(blob.SizedRef) error) error {
+	st := s.st.Load()
 	p := s.splan.Load()
 	if p != nil {
 		if pos, ok := p.posOf[s.id]; ok {
@@ -177,7 +191,7 @@ func (s *sub) StatBlobs(ctx context.Context, blobs []blob.Ref, fn func(blob.Size
 	// request order, like the memory store (which ignores ctx: a cancelled errgroup context must not
 	// hide reports)
 	for _, br := range blobs {
-		if c, ok := s.get(br); ok {
+		if c, ok := st.get(br); ok {
 			if p != nil && p.attempt != nil {
 				p.attempt(br)
 			}
@@ -190,7 +204,9 @@ func (s *sub) StatBlobs(ctx context.Context, blobs []blob.Ref, fn func(blob.Size
 }
 
 // all returns what the sub-store holds, ascending by ref
-func (s *sub) all() []blob.SizedRef {
+func (s *sub) all() []blob.SizedRef { return s.st.Load().all() }
+
+func (s *subState) all() []blob.SizedRef {
 	var out []blob.SizedRef
 	for _, str := range s.mem.BlobrefStrings() {
 		br := blob.MustParse(str)
@@ -208,11 +224,12 @@ func (s *sub) all() []blob.SizedRef {
 
 func (s *sub) EnumerateBlobs(ctx context.Context, dest chan<- blob.SizedRef, after string, limit int) error {
 	defer close(dest)
+	st := s.st.Load()
 	if s.down.Load() {
 		return errDown
 	}
 	n := 0
-	for _, sb := range s.all() {
+	for _, sb := range st.all() {
 		if after != "" && sb.Ref.String() <= after {
 			continue
 		}
@@ -230,15 +247,16 @@ func (s *sub) EnumerateBlobs(ctx context.Context, dest chan<- blob.SizedRef, aft
 }
 
 func (s *sub) RemoveBlobs(ctx context.Context, blobs []blob.Ref) error {
+	st := s.st.Load()
 	if s.down.Load() {
 		return errDown
 	}
-	s.bmu.Lock()
+	st.bmu.Lock()
 	for _, br := range blobs {
-		delete(s.bad, br)
+		delete(st.bad, br)
 	}
-	s.bmu.Unlock()
-	return s.mem.RemoveBlobs(ctx, blobs)
+	st.bmu.Unlock()
+	return st.mem.RemoveBlobs(ctx, blobs)
 }
 
 // the wrappers are pooled: blobserver.GetHub keeps every storage it has seen in a global map
@@ -254,12 +272,10 @@ func pooledSub(i int, fetches *atomic.Int64) *sub {
 		subPool = append(subPool, &sub{id: len(subPool)})
 	}
 	s := subPool[i]
-	s.mem = &memory.Storage{}
-	s.bad = map[blob.Ref][]byte{}
+	s.st.Store(&subState{mem: &memory.Storage{}, bad: map[blob.Ref][]byte{}, fetches: fetches})
 	s.down.Store(false)
 	s.rplan.Store(nil)
 	s.splan.Store(nil)
-	s.fetches = fetches
 	return s
 }
 
@@ -491,10 +507,10 @@ func (w *world) exec(ws []string) string {
 			return "bad-op"
 		}
 		if ws[0] == "puttr" {
-			w.subs[i].storeBad(ctx, br, c)
+			w.subs[i].st.Load().storeBad(ctx, br, c)
 			return "ok"
 		}
-		if _, err := w.subs[i].storeGood(ctx, br, c); err != nil {
+		if _, err := w.subs[i].st.Load().storeGood(ctx, br, c); err != nil {
 			return "err"
 		}
 		return "ok"
@@ -740,9 +756,22 @@ func (w *world) exec(ws []string) string {
 	return "bad-op"
 }
 
-// watchdog bounds every wait of the arrival-order forcing: a ReceiveBlob / StatBlobs that does not start
+// the watchdog bounds every wait of the arrival-order forcing: a ReceiveBlob / StatBlobs that does not start
 // or finish the calls the orchestration waits for is an observation, not a hang
-const watchdog = 4 * time.Second
+const watchdogFull = 4 * time.Second
+
+// after a few expired watchdogs (each already an oracle failure) the remaining ones are kept short,
+// so a broken implementation costs seconds, not the run's whole time budget
+var hangs atomic.Int64
+
+func hang() string { hangs.Add(1); return "hang" }
+
+func wd() time.Duration {
+	if hangs.Load() >= 5 {
+		return 300 * time.Millisecond
+	}
+	return watchdogFull
+}
 
 func waitc(ch <-chan struct{}, deadline time.Time) bool {
 	select {
@@ -757,7 +786,7 @@ func waitc(ch <-chan struct{}, deadline time.Time) bool {
 // It returns the protocol answer and the set of write sub-stores holding the blob (with the right
 // content) at the moment ReceiveBlob returned.  If ReceiveBlob returns before every upload has
 // started (so the order cannot be forced) the answer carries the suffix " unforced".
-func (w *world) recv(br blob.Ref, content []byte, order []int, kinds map[int]string, cancelLate bool) (string, []int) {
+func (w *world) recv(br blob.Ref, content []byte, order []int, kinds map[int]string, cancelLate bool) (answer string, heldAtReturn []int) {
 	n := len(w.writes)
 	p := &recvPlan{posOf: map[int]int{}, kind: make([]string, n), entered: make(chan int, n)}
 	for pos, id := range w.writes {
@@ -786,18 +815,25 @@ func (w *world) recv(br blob.Ref, content []byte, order []int, kinds map[int]str
 		resc <- recvResult{sb, err}
 	}()
 	gid := <-gidc
-	deadline := time.Now().Add(watchdog)
+	deadline := time.Now().Add(wd())
 	// whatever happens: open every gate, wait (bounded) for the uploads that did start, detach the plan
 	defer func() {
 		for pos := 0; pos < n; pos++ {
 			open(pos)
 		}
-		end := time.Now().Add(watchdog)
+		end := time.Now().Add(wd())
+		finished := false
 		for time.Now().Before(end) {
 			if alive, _ := recvState(gid); alive == 0 {
+				finished = true
 				break
 			}
 			runtime.Gosched()
+		}
+		if !finished {
+			// upload goroutines that never end (e.g. blocked sending their result): an observation
+			hangs.Add(1)
+			answer += " uploads-never-finished"
 		}
 		for _, id := range w.writes {
 			w.subs[id].rplan.Store(nil)
@@ -815,7 +851,7 @@ func (w *world) recv(br blob.Ref, content []byte, order []int, kinds map[int]str
 			res = &r
 			unforced = true
 		case <-time.After(time.Until(deadline)):
-			return "hang", nil
+			return hang(), nil
 		}
 	}
 	released := 0
@@ -824,7 +860,7 @@ func (w *world) recv(br blob.Ref, content []byte, order []int, kinds map[int]str
 		for _, pos := range order {
 			open(pos)
 			if !waitc(p.done[pos], deadline) {
-				return "hang", nil
+				return hang(), nil
 			}
 			released++
 			// wait until the result has been consumed: either ReceiveBlob returned, or the upload's
@@ -841,14 +877,14 @@ func (w *world) recv(br blob.Ref, content []byte, order []int, kinds map[int]str
 					break
 				}
 				if time.Now().After(deadline) {
-					return "hang", nil
+					return hang(), nil
 				}
 				runtime.Gosched()
 			}
 		}
 	}
 	if res == nil {
-		return "hang", nil
+		return hang(), nil
 	}
 	var held []int
 	for _, id := range w.writes {
@@ -863,8 +899,8 @@ func (w *world) recv(br blob.Ref, content []byte, order []int, kinds map[int]str
 	if !unforced {
 		for _, pos := range order[released:] {
 			open(pos)
-			if !waitc(p.done[pos], time.Now().Add(watchdog)) {
-				return "hang", nil
+			if !waitc(p.done[pos], time.Now().Add(wd())) {
+				return hang(), nil
 			}
 		}
 	}
@@ -931,7 +967,7 @@ func (w *world) stat(refs []blob.Ref, order []int) ([]blob.SizedRef, error) {
 			return nil
 		})
 	}()
-	deadline := time.Now().Add(watchdog)
+	deadline := time.Now().Add(wd())
 	errHang := errors.New("harness: StatBlobs did not call a read replica (watchdog)")
 	isDown := func(pos int) bool { return w.subs[w.reads[pos]].down.Load() }
 	if len(order) == 0 {
@@ -945,6 +981,7 @@ func (w *world) stat(refs []blob.Ref, order []int) ([]blob.SizedRef, error) {
 		opened[pos] = true
 		close(p.gate[pos])
 		if !waitc(p.done[pos], deadline) {
+			hangs.Add(1)
 			return nil, errHang
 		}
 	}
@@ -953,7 +990,8 @@ func (w *world) stat(refs []blob.Ref, order []int) ([]blob.SizedRef, error) {
 		mu.Lock()
 		defer mu.Unlock()
 		return append([]blob.SizedRef(nil), got...), err
-	case <-time.After(watchdog):
+	case <-time.After(wd()):
+		hangs.Add(1)
 		return nil, errHang
 	}
 }
@@ -1072,7 +1110,8 @@ func (w *world) statc(refs []blob.Ref, mode string) ([]string, bool, error) {
 		mu.Lock()
 		defer mu.Unlock()
 		return append([]string(nil), got...), !concurrent, err
-	case <-time.After(watchdog):
+	case <-time.After(wd()):
+		hangs.Add(1)
 		return nil, false, errors.New("harness: StatBlobs did not return (watchdog)")
 	}
 }
